@@ -436,18 +436,24 @@ class Interp:
             a, b = _as_int(a), _as_int(b)
             return {"<": a < b, "<=": a <= b, ">": a > b, ">=": a >= b}[op]
         if isinstance(a, (tuple, list)) and isinstance(b, (tuple, list)) and type(a) is type(b):
-            # lexicographic
+            # lexicographic, left to right (later elements are only compared when the earlier ones may be equal)
             strict = op in ("<", ">")
             base = "<" if op in ("<", "<=") else ">"
-            n = min(len(a), len(b))
-            res = (len(a) < len(b)) if base == "<" else (len(a) > len(b))
-            if not strict and len(a) == len(b):
-                res = True
-            for i in range(n - 1, -1, -1):
-                lt = self.sym_lt(base, a[i], b[i])
+
+            def rec(i):
+                if i >= len(a) or i >= len(b):
+                    if len(a) == len(b):
+                        return not strict
+                    return (len(a) < len(b)) if base == "<" else (len(a) > len(b))
                 eq = self.sym_eq(a[i], b[i])
-                res = _or([lt, _and([eq, res])])
-            return res
+                if eq is True:
+                    return rec(i + 1)
+                lt = self.sym_lt(base, a[i], b[i])
+                if eq is False:
+                    return lt
+                return _or([lt, _and([eq, rec(i + 1)])])
+
+            return rec(0)
         if isinstance(a, str) and isinstance(b, str):
             return {"<": a < b, "<=": a <= b, ">": a > b, ">=": a >= b}[op]
         if isinstance(a, Obj):
